@@ -42,6 +42,11 @@ def make_module(pid, specs, name='mod'):
                 open(os.path.join(d, fn), 'w').write(txt)
             gm += '\nrequire %s v0.0.0\n\nreplace %s => ./zz_ext/%s\n' % (mp, mp, mp)
         open(os.path.join(mod, 'go.mod'), 'w').write(gm)
+    for sp in specs:
+        for rel, fl in (getattr(sp, 'shared_pkgs', {}) or {}).items():
+            os.makedirs(os.path.join(mod, rel), exist_ok=True)
+            for fn, txt in fl.items():
+                open(os.path.join(mod, rel, fn), 'w').write(txt)
     for i, sp in enumerate(specs):
         pkg = 'p%04d' % i
         sp.pkg = pkg
@@ -92,6 +97,22 @@ def determinism_checks(pid, wire, mod, res, label):
             sh([wire, 'gen'] + ['../' + d + '/...' for d in pk_dirs[i:i + 40]], first)
     moved = snapshot_gen(other)
     shutil.rmtree(os.path.join(workdir(pid), 'elsewhere'), ignore_errors=True)
+    # every package generated alone (independent of what else is processed in the same invocation)
+    alone_root = os.path.join(workdir(pid), 'alone', 'corpus')
+    shutil.rmtree(os.path.join(workdir(pid), 'alone'), ignore_errors=True)
+    shutil.copytree(mod, alone_root, ignore=shutil.ignore_patterns('wire_gen.go', 'zz_replay_*', '_p*'))
+    for rel in sorted(base):
+        sh([wire, 'gen', './' + os.path.dirname(rel)], alone_root)
+    alone = snapshot_gen(alone_root)
+    shutil.rmtree(os.path.join(workdir(pid), 'alone'), ignore_errors=True)
+    alone_equal = 0
+    for rel, data in base.items():
+        if alone.get(rel) == data:
+            alone_equal += 1
+        else:
+            res['confirmed'].append(dict(cls='C16:output depends on the other packages of the invocation', props=['C16'],
+                                         msg='wire gen ./... and wire gen ./%s produce different bytes for %s' % (os.path.dirname(rel), rel),
+                                         artifact_dir=os.path.join(mod, os.path.dirname(rel)), model=None, harness=label))
     # GOPATH mode with a vendor directory (github.com/google/wire and the external modules are vendored)
     gp = os.path.join(workdir(pid), 'gopath')
     shutil.rmtree(gp, ignore_errors=True)
@@ -111,7 +132,7 @@ def determinism_checks(pid, wire, mod, res, label):
     sh([wire, 'gen', './...'], gsrc, env=genv)
     vendored = snapshot_gen(gsrc)
     shutil.rmtree(gp, ignore_errors=True)
-    res['extra']['determinism'] = dict(files=len(base), repeat_equal=0, moved_equal=0, gopath_vendor_equal=0)
+    res['extra']['determinism'] = dict(files=len(base), repeat_equal=0, moved_equal=0, gopath_vendor_equal=0, alone_equal=alone_equal)
     for rel, data in base.items():
         if rel.startswith('_'):
             continue
@@ -148,6 +169,17 @@ def run_sideb(pid, specs, props_filter=None, label='sideB', determinism=False):
         return res
     mod = make_module(pid, specs)
     rc, out, err = sh([wire, 'gen', './...'], mod)
+    if 'panic:' in err or 'goroutine ' in err:
+        m = re.search(r'panic: [^\n]*', err)
+        res['confirmed'].append(dict(cls='C20:wire panicked', props=['C20'], msg='wire gen crashed on the corpus: %s' % (m.group(0) if m else err[-300:]),
+                                     artifact_dir=None, model=None, harness=label))
+        for c in res['confirmed']:
+            c['class'] = c['cls']
+        if props_filter:
+            res['confirmed'] = [c for c in res['confirmed'] if props_filter in c['props']]
+        if not res['confirmed']:
+            res['inconclusive_list'].append('wire gen crashed (a C20 violation, reported by the C20 check): ' + (m.group(0) if m else ''))
+        return res
     gen_fail = set(re.findall(r'wire: example\.com/corpus/(p\d+): generate failed', err))
     wrote = set(re.findall(r'wire: example\.com/corpus/(p\d+): wrote', err))
     res['extra']['wire_gen'] = dict(rc=rc, wrote=len(wrote), failed=len(gen_fail))
@@ -168,6 +200,9 @@ def run_sideb(pid, specs, props_filter=None, label='sideB', determinism=False):
             if sp.pkg in wrote:
                 res['confirmed'].append(dict(cls='%s:ill-formed program accepted' % ','.join(sp.reject_props), props=sp.reject_props,
                                              msg='wire gen accepted a program it must reject (%s)' % sp.label, artifact_dir=os.path.join(mod, sp.pkg), model=None, harness=label))
+            elif not re.search(r'^wire: [^\n]*%s[^\n]*\.go:\d+:\d+: ' % sp.pkg, err, re.M):
+                res['confirmed'].append(dict(cls='C20:rejected without a positioned diagnostic', props=['C20'],
+                                             msg='wire gen rejected %s (%s) without any file:line:column diagnostic' % (sp.pkg, sp.label), artifact_dir=os.path.join(mod, sp.pkg), model=None, harness=label))
             res['disagreements_checked'] += 1
     if determinism:
         determinism_checks(pid, wire, mod, res, label)
